@@ -19,6 +19,7 @@ func init() {
 			{"DELETED-REDIRECT", ruleDeletedRedirect},
 			{"SORT-BEFORE-BUILD", ruleSortBeforeBuild},
 			{"WALK-PARTITION", func(c *eng.Ctx) { ruleWalkPartitionMerge(c) }},
+			{"WALK-STOP", ruleWalkStop},
 			{"MERGE-SERIAL", ruleMergeSerial},
 			{"UNKNOWN-FIELD-SKIP", ruleUnknownFieldSkip},
 			{"ERRFLOW", func(c *eng.Ctx) {
